@@ -458,6 +458,10 @@ fn driver_layer(run: &Run) {
     let mut brief = summary.clone();
     brief.as_object_mut().map(|m| m.remove("violations"));
     run.extra("driver_layer", brief);
+    let n_child = summary["violations"].as_array().map(|a| a.len()).unwrap_or(0);
+    if !matches!(out.status.code(), Some(0) | Some(1)) || (out.status.code() == Some(1)) != (n_child > 0) {
+        run.machinery_error(&format!("the driver layer's exit status {:?} does not agree with the {n_child} violation(s) it reported", out.status.code()));
+    }
     for v in summary["violations"].as_array().cloned().unwrap_or_default() {
         run.violation(
             v["clause"].as_str().unwrap_or("inconsistent-history-flagged"),
